@@ -35,16 +35,23 @@ UNPROVED = ["accuracy of the f64 evaluation between the certified points (tie + 
             "and the exponential forms proved in Props/C14.v"]
 
 MANIFEST = dict(
-    text=("Theorems over R about the formula-by-formula Gallina model of all 35 public Complex<f64> functions: exp(ln z)=z, sqrt(z)^2=z, "
-          "Re sqrt z>=0, Im ln z in (-pi,pi], z^w=exp(w ln z), polar round trip, sin/cos/sinh/cosh = their exponential forms, "
-          "Pythagorean identities, reduction to the real functions on the real axis, reciprocals, and the right-inverse identities "
-          "f(f^-1(z))=z. The model is tied to the code by kernel-checked Interval certificates: at every structured point "
-          "(all quadrants, axes, next to 0/+-1/+-i, both sides of each cut) each component returned by the Rust code is proved to "
-          "be within 1e-9*max(1,|v|) of the model's real value. mpmath and the identities search a denser sample."),
-    note=("libm accuracy and f64 rounding are certified pointwise (tie) and searched, not proved; points exactly on a cut are "
-          "excluded from value comparison (signed-zero convention)."),
-    technique="Coq proof over R (Reals + Interval) + certified real evaluation of the model against the Rust executor + mpmath search",
-    design="4.2, 7 (C14)")
+    text=("24 theorems over R (coq/Props/C14.v) about the formula-by-formula Gallina model of the 35 public Complex<f64> functions "
+          "(31 one-argument incl. abs/arg/abs_sqr/conj, pow, powf, log, polar): z = |z|(cos arg z, sin arg z) with arg in (-pi,pi]; "
+          "exp(ln z)=z; sqrt(z)^2=z; Re sqrt z>=0; Im ln z in (-pi,pi]; z^w=exp(w ln z) and powf=pow; polar round trip both ways; "
+          "sin/cos/sinh/cosh = their exponential forms, exp(a+b)=exp a exp b; both Pythagorean identities; reduction to the real "
+          "functions on the real axis (direct functions, ln/sqrt/powf, asin/acos/atan/asinh/atanh/acosh); reciprocal functions are "
+          "reciprocals; all twelve right inverses f(f^-1 z)=z (tan/atan z<>+-i, tanh/atanh z<>+-1, reciprocal-argument ones z<>0); "
+          "Re asin z in [-pi/2,pi/2], Re acos z in [0,pi], asin z+acos z=pi/2; ln(exp z)=z on the principal strip, b^(log_b z)=z. "
+          "Tie: kernel-checked Interval certificates -- at every structured dyadic point (all quadrants, both axes, 2^-10/2^-20 next "
+          "to 0,+-1,+-i, both sides of every cut at distances 2^-10, 2^-20, 2^-30) each component returned by the Rust code is proved "
+          "to lie within 1e-9*max(1,|v|) of the model's real value (about 1 300 certificates quick, 10 500 thorough; the constant "
+          "PI_2 is certified against PI/2). Search: mpmath at 50 digits and the identities themselves on the structured set plus "
+          "seeded random points (8 000 cases quick, 49 000 thorough)."),
+    note=("libm accuracy and f64 rounding are certified pointwise (tie) and searched, not proved; points exactly on a cut are excluded "
+          "from value comparison (the code follows the sign of its computed zero, the R-model has no signed zero); agreement with "
+          "the power series is through the standard library's exp/sin/cos, which are defined by their series."),
+    technique="Coq proof over R (Reals, field structure on R x R) + certified real evaluation (Interval) of the model against the Rust executor + mpmath/identity search",
+    design="4.2, 7 (C14), Appendix E")
 
 PI = math.pi
 _cov = {}
@@ -123,8 +130,18 @@ def generate(rng, tier):
         cases.append(mk_polarinv(r, t, "polar"))
     return cases
 
+def mk_single(name, args, fam):
+    """one function at one point (replay of a certificate event): args = [['c', [x, y]] | ['r', x]] with exact values as strings"""
+    a = [(k, tuple(F(c) for c in v) if k == 'c' else F(v)) for k, v in args]
+    return Case("cplx", harness_line(name, a), None,
+                meta={"kind": "single", "function": name, "args": [[k, [str(c) for c in v] if k == 'c' else str(v)] for k, v in a]}, family=fam)
+
 def case_from_json(j):
     m = j["meta"]
+    if "extra" in m:                      # replay of a certificate event: re-evaluate that function at that point
+        e = m["extra"]
+        if "function" not in e or not e.get("args"): raise ValueError("nothing to replay in %r" % (e,))
+        return mk_single(e["function"], e["args"], "replay")
     k = m["kind"]
     if k == "all": return mk_all(tuple(m["z"]), "corpus")
     if k == "rt":
@@ -132,7 +149,7 @@ def case_from_json(j):
     if k == "pow": return mk_pow(tuple(m["z"]), tuple(m["w"]), "corpus")
     if k == "polarid": return mk_polar(tuple(m["z"]), "corpus")
     if k == "polarinv": return mk_polarinv(m["r"], m["t"], "corpus")
-    if k == "extra": return None
+    if k == "single": return mk_single(m["function"], m["args"], "corpus")
     raise ValueError(k)
 
 def _floats(items):
@@ -234,6 +251,26 @@ def oracle(case, items):
     if k == "polarid":
         z = complex(*m["z"]); p = complex(fs[0], fs[1])
         if abs(p - z) > 1e-9 * max(1, abs(z)): return "polar(|z|, arg z) = %r, not z = %r" % (p, z)
+        return None
+    if k == "single":
+        name = m["function"]
+        a = [(kk, tuple(F(c) for c in v) if kk == 'c' else F(v)) for kk, v in m["args"]]
+        if any(not math.isfinite(v) for v in fs): return "%s%r = %r is not finite" % (name, m["args"], fs)
+        q = lambda x: mp.mpf(x.numerator) / x.denominator
+        if name in MPREF:
+            z = a[0][1]
+            if on_cut(name, z): return None
+            ref = MPREF[name](mp.mpc(q(z[0]), q(z[1])))
+            got = fs[0] if name in REAL_VALUED else complex(fs[0], fs[1])
+        else:
+            a0, a1 = a[0][1], a[1][1]
+            if name == "polar": ref = q(a0) * mp.expj(q(a1))
+            elif on_cut(name, a0): return None
+            elif name == "powf": ref = mp.exp(q(a1) * mp.log(mp.mpc(q(a0[0]), q(a0[1]))))
+            elif name == "pow": ref = mp.exp(mp.mpc(q(a1[0]), q(a1[1])) * mp.log(mp.mpc(q(a0[0]), q(a0[1]))))
+            else: ref = mp.log(mp.mpc(q(a0[0]), q(a0[1]))) / mp.log(mp.mpc(q(a1[0]), q(a1[1])))
+            got = complex(fs[0], fs[1])
+        if not _close(got, ref): return "%s%r = %r but the function value is %s (mpmath, 50 digits)" % (name, m["args"], got, mp.nstr(ref, 17))
         return None
     if k == "polarinv":
         r, t = m["r"], m["t"]
